@@ -42,8 +42,9 @@ func (s *ValidatorStore) SavePubKeys(_ context.Context, keys []gcrypto.PubKey) (
 		return sHash, tmstore.PubKeysAlreadyExistError{ExistingHash: sHash}
 	}
 
-	// TODO: should this clone the public keys?
-	s.keys[sHash] = keys
+	// Clone, like SaveVotePowers does: the entry must keep hashing to sHash
+	// no matter what the caller does with its slice afterwards.
+	s.keys[sHash] = slices.Clone(keys)
 	return sHash, nil
 }
 
